@@ -254,6 +254,53 @@ func (t *fnTrans) modelCall(key string, fn *ssa.Function, args []Val, argTys []t
 		t.lockOp(args[0], false, key, pos)
 		return Val{}, true
 	}
+	if key == "encoding/json.Unmarshal" || key == "(*encoding/json.Decoder).Decode" {
+		// decoding writes only exported fields of the struct it is given (and whatever they point to)
+		v := args[len(args)-1]
+		if v.IfaceT != nil {
+			if pt, ok := v.IfaceT.Underlying().(*types.Pointer); ok {
+				if st, ok := pt.Elem().Underlying().(*types.Struct); ok && !t.S.opaqueStruct(pt.Elem()) && v.IfaceV != "" {
+					simple := true
+					for i := 0; i < st.NumFields(); i++ {
+						f := st.Field(i)
+						if !f.Exported() {
+							continue
+						}
+						switch f.Type().Underlying().(type) {
+						case *types.Basic:
+						default:
+							simple = false
+						}
+					}
+					if simple {
+						for i := 0; i < st.NumFields(); i++ {
+							f := st.Field(i)
+							if !f.Exported() {
+								continue
+							}
+							fv := t.fieldVar(pt.Elem(), i)
+							nv := t.freshVal("json_"+f.Name(), f.Type())
+							t.set(fv.Name, fmt.Sprintf("(store %s %s %s)", t.get(t.cur, fv.Name), v.IfaceV, nv))
+						}
+						t.usedExterns[key+" (model: writes exported fields of the target struct only)"] = true
+						return t.resultVal(resTy, "jsonerr"), true
+					}
+				}
+			}
+		}
+	}
+	if key == "encoding/binary.Read" && len(args) == 3 && args[2].IfaceT != nil {
+		// binary.Read(r, order, &x): writes the fixed-size value x points to, nothing else
+		if pt, ok := args[2].IfaceT.Underlying().(*types.Pointer); ok {
+			if _, basic := pt.Elem().Underlying().(*types.Basic); basic && args[2].IfaceV != "" {
+				dv := t.derefVar(pt.Elem())
+				nv := t.freshVal("binread", pt.Elem())
+				t.set(dv.Name, fmt.Sprintf("(store %s %s %s)", t.get(t.cur, dv.Name), args[2].IfaceV, nv))
+				t.usedExterns[key+" (model: writes only the value its third argument points to)"] = true
+				return t.resultVal(resTy, "binerr"), true
+			}
+		}
+	}
 	if strings.HasPrefix(key, "sync/atomic.") {
 		name := strings.TrimPrefix(key, "sync/atomic.")
 		if len(args) == 0 {
@@ -789,6 +836,7 @@ func (t *fnTrans) applyContract(fc *FuncContract, key string, sig *types.Signatu
 	} else {
 		bindRes(0, res, resTy)
 	}
+	defer t.applyOnReturn(fc, post)
 	if len(insts) == 0 {
 		for _, c := range fc.Ensures {
 			t.assume(post.boolOf(c.Expr))
@@ -820,4 +868,26 @@ func exprTypeText(x Expr) string {
 		return exprTypeText(x.X) + "." + x.Sel
 	}
 	return ""
+}
+
+// applyOnReturn: the callee's ghost updates take effect in the caller's state.
+func (t *fnTrans) applyOnReturn(fc *FuncContract, post *Env) {
+	for _, gs := range fc.OnReturn {
+		g, ok := t.eng.contracts.Ghosts[gs.Var]
+		if !ok {
+			t.errorf("onreturn: unknown ghost %s", gs.Var)
+			continue
+		}
+		sv := t.ghostVar(g, post.pkgOf(g.Pkg))
+		pe := *post
+		pe.st = t.cur
+		v, vt := pe.eval(gs.Val)
+		nv := pe.coerce(v, vt, sv.Typ)
+		if gs.Cond != nil {
+			nv = fmt.Sprintf("(ite %s %s %s)", pe.boolOf(gs.Cond), nv, t.get(t.cur, sv.Name))
+		}
+		r := t.fresh(sv.Name+"_set", sv.Sort)
+		t.define(fmt.Sprintf("(= %s %s)", r, nv))
+		t.set(sv.Name, r)
+	}
 }
